@@ -22,7 +22,7 @@ Proof.
   intros s j I R J RG AP. destruct (raw_facts s j I RG) as (_ & _ & K).
   assert (POS : forall v, k_get (kern s) (rw_rfd s j) = Some v -> 0 < vcnt v).
   { intros v G. apply (r3_cnt _ R j J RG v G). exact AP. }
-  destruct (efd_raw s =? 0).
+  destruct (raw_is_pipe s j).
   - destruct K as (_ & _ & vr & vw & Or & KR & _). pose proof (k_open_get _ _ _ Or) as [Gr _].
     split; [|congruence]. unfold k_cond. rewrite Gr, KR.
     change (K_PIPE_R =? K_SCRIPTED) with false. change (K_PIPE_R =? K_EVENTFD) with false. change (K_PIPE_R =? K_PIPE_R) with true.
@@ -86,8 +86,8 @@ Proof.
   - intros E. inversion E; subst. eexists. split; [reflexivity|]. constructor; cbn [kern set_kern emit set_trace trace fdt pfds pkeys notify rw_reg rw_rfd rw_wfd efd_raw]; congruence.
   - intros E. inversion E; subst. eexists. split; [reflexivity|]. constructor; cbn [kern set_kern emit set_trace trace fdt pfds pkeys notify rw_reg rw_rfd rw_wfd efd_raw]; congruence.
   - rewrite RR. destruct (rw_reg x j); intros E; inversion E; subst.
-    + eexists. split; [reflexivity|]. unfold raw_post. cbn [efd_raw emit set_trace kern rw_wfd]. rewrite EF, WF', K.
-      destruct (efd_raw x =? 0); destruct (k_write _ _ _ _); constructor;
+    + eexists. split; [reflexivity|]. unfold raw_post, raw_is_pipe. cbn [efd_raw emit set_trace kern rw_wfd rw_rfd]. rewrite WF', RF, K.
+      destruct (negb (rw_wfd x j =? rw_rfd x j)); destruct (k_write _ _ _ _); constructor;
         cbn [kern set_kern emit set_trace trace fdt pfds pkeys notify rw_reg rw_rfd rw_wfd efd_raw]; congruence.
     + eexists. split; [reflexivity|]. constructor; assumption.
   - intros E. inversion E; subst. eexists. split; [reflexivity|]. constructor; cbn [kern set_kern emit set_trace trace fdt pfds pkeys notify rw_reg rw_rfd rw_wfd efd_raw]; congruence.
